@@ -60,6 +60,9 @@ C04c(e) == GetDone(e) =>
               /\ (e.result = "no_runtime" => ~HasRuntime)
               /\ (e.result = "closed" => e.closed)
 
+\* a per-call recycle timeout on a pool without runtime is refused as such, whatever the wait mode
+C04d(e) == (GetDone(e) /\ ~HasRuntime /\ e.rto # "none") => e.result \in {"no_runtime", "cancelled", "panic"}
+
 C06a(e) == (GetDone(e) /\ e.late) => e.result \in {"closed", "cancelled", "no_runtime"}
 C06b(e) == (e.closeret /\ e.quiescent /\ ~e.poolgone /\ e.idle >= 0)
               => (e.idle = 0 /\ e.closed /\ (e.stknown => e.st_max = 0))
@@ -68,7 +71,7 @@ C07a(e) == (e.done /\ e.op = "resize" /\ ~e.closed /\ ~e.resizing /\ e.stknown)
               => (e.st_max = e.arg /\ e.idle <= e.arg)
 C07c(e) == (e.quiescent /\ e.out = 0 /\ ~e.resizing /\ e.idle >= 0 /\ ~e.poolgone) => e.idle <= e.max
 
-C08a(e) == e.expectpop > 0 => e.callobj = e.expectpop
+C08a(e) == e.expectpop # 0 => e.callobj = e.expectpop
 C08b(e) == e.refqlen >= 0 => e.refqlen = 0
 C08c(e) == e.orphancalls = 0 /\ (e.k \in {"begin", "end"} => e.bgcalls = 0)
 
@@ -121,10 +124,10 @@ C06c(a, b) == (a.closed /\ ~b.poolgone) => b.closed
 C07b(a, b) == (b.live + b.creating > a.live + a.creating) => b.live + b.creating <= b.max
 
 StateViol(e) ==
-  {n \in {"C01", "C02a", "C02b", "C02c", "C03a", "C04a", "C04b", "C04c", "C06a", "C06b", "C07a", "C07c",
+  {n \in {"C01", "C02a", "C02b", "C02c", "C03a", "C04a", "C04b", "C04c", "C04d", "C06a", "C06b", "C07a", "C07c",
           "C08a", "C08b", "C08c", "C09a", "C09b", "C11a", "C11b", "C13a", "C13b", "C13c", "C03b", "C07d", "C09c", "C10b", "C10c", "C10d"} :
      ~ CASE n = "C01" -> C01(e) [] n = "C02a" -> C02a(e) [] n = "C02b" -> C02b(e) [] n = "C02c" -> C02c(e)
-         [] n = "C03a" -> C03a(e) [] n = "C04a" -> C04a(e) [] n = "C04b" -> C04b(e) [] n = "C04c" -> C04c(e)
+         [] n = "C03a" -> C03a(e) [] n = "C04a" -> C04a(e) [] n = "C04b" -> C04b(e) [] n = "C04c" -> C04c(e) [] n = "C04d" -> C04d(e)
          [] n = "C06a" -> C06a(e) [] n = "C06b" -> C06b(e) [] n = "C07a" -> C07a(e) [] n = "C07c" -> C07c(e)
          [] n = "C08a" -> C08a(e) [] n = "C08b" -> C08b(e) [] n = "C08c" -> C08c(e)
          [] n = "C09a" -> C09a(e) [] n = "C09b" -> C09b(e)
